@@ -58,6 +58,59 @@ def ref_line(tx, kw, exc, sect, w2f):
                      ['1' if sect else '0', '1' if w2f else '0'])
 
 
+def fusion_backbone(out, desc, anno, genome, pool, donor, acc, tdicts, kw, canon, idmap, exc, lines):
+    """fills out['cvb'] / out['canon'] (+ the donor 'ref' line) for the ONE fusion donor -> acc;
+    returns False when the case cannot be evaluated"""
+    # the fusion backbone
+    dser = pool[donor]
+    if len(dser.fusion) != 1:
+        out['stats']['fusion_not_loaded'] = 1
+        return False
+    fz = dser.fusion[0]
+    dd, dseq, dgs = tdicts[donor] if donor in tdicts else tx_dict(anno, genome, donor, [])
+    am = anno.transcripts[acc]
+    aseq = am.get_transcript_sequence(genome[am.transcript.chrom])
+    ags = gene_seq_of(anno, genome, am)
+    bp = int(fz.location.start)
+    orf_start = (dd['orf'][0] if dd['orf'] else 0) + 3
+    desc.update(breakpoint_tx=bp, donor_orf=dd['orf'], donor_coding=dd['coding'])
+    out['stats']['coding_donor' if dd['coding'] else 'noncoding_donor'] = 1
+    skip_fusion = bp < orf_start
+    if skip_fusion:
+        out['stats']['fusion_before_start'] = 1
+    lis, lie = fz.attrs.get('LEFT_INSERTION_START'), fz.attrs.get('LEFT_INSERTION_END')
+    ris, rie = fz.attrs.get('RIGHT_INSERTION_START'), fz.attrs.get('RIGHT_INSERTION_END')
+    lins = dgs[int(lis):int(lie)] if lis is not None else ''
+    rins = ags[int(ris):int(rie)] if ris is not None else ''
+    if lins or rins:
+        out['stats']['intronic_breakpoint'] = 1
+    abp = anno.coordinate_gene_to_transcript(fz.get_accepter_position(), am.transcript.gene_id, acc)
+    back = dd['seq'][:bp] + lins + rins + str(aseq.seq)[abp:]
+    shift = bp + len(lins) + len(rins) - abp
+    bvars = [v for v in dd['vars'] if v[1] < bp]
+    if acc in pool.data:
+        agsq = ags
+        for v in pool[acc].transcriptional:
+            av = as_var(v, aseq, agsq)
+            if av[0] > abp:
+                bvars.append((av[0] + shift, av[1] + shift, av[2], av[3], av[4], av[5]))
+    if any(v[4] in ('Insertion', 'Deletion', 'Substitution') for v in bvars):
+        out['stats']['as_with_fusion'] = 1
+        return False
+    btx = {'seq': back, 'coding': dd['coding'], 'orf': dd['orf'], 'start_nf': dd['start_nf'],
+           'end_nf': am.is_mrna_end_nf(), 'sec': [s for s in dd['sec'] if s + 3 < bp],
+           'vars': bvars}
+    if not skip_fusion:
+        vf = var_field(bvars, idmap)
+        lim = str(bp + len(lins) + len(rins))
+        lines.append(('ref', ref_line(dd, kw, exc, kw['selenocysteine_termination'],
+                                      kw['w2f_reassignment'])))
+        out['cvb'] = ['S', 'cvb'] + tx_fields(btx) + [lim, '1', vf] + cleave_fields(kw, exc) + \
+            ['0', '1' if kw['w2f_reassignment'] else '0']
+        out['canon'] = ','.join(sorted(canon))
+    return True
+
+
 def fusion_worker(job):
     """two genes, small records on both, ONE fusion donor -> acceptor"""
     seed, tier, opts = job
@@ -118,53 +171,8 @@ def fusion_worker(job):
                     out['stats']['unsupported_type'] = 1
                     return out
                 lines.append(('main', ln))
-        # the fusion backbone
-        dser = pool[donor]
-        if len(dser.fusion) != 1:
-            out['stats']['fusion_not_loaded'] = 1
+        if not fusion_backbone(out, desc, anno, genome, pool, donor, acc, tdicts, kw, canon, idmap, exc, lines):
             return out
-        fz = dser.fusion[0]
-        dd, dseq, dgs = tdicts[donor] if donor in tdicts else tx_dict(anno, genome, donor, [])
-        am = anno.transcripts[acc]
-        aseq = am.get_transcript_sequence(genome[am.transcript.chrom])
-        ags = gene_seq_of(anno, genome, am)
-        bp = int(fz.location.start)
-        orf_start = (dd['orf'][0] if dd['orf'] else 0) + 3
-        desc.update(breakpoint_tx=bp, donor_orf=dd['orf'], donor_coding=dd['coding'])
-        out['stats']['coding_donor' if dd['coding'] else 'noncoding_donor'] = 1
-        skip_fusion = bp < orf_start
-        if skip_fusion:
-            out['stats']['fusion_before_start'] = 1
-        lis, lie = fz.attrs.get('LEFT_INSERTION_START'), fz.attrs.get('LEFT_INSERTION_END')
-        ris, rie = fz.attrs.get('RIGHT_INSERTION_START'), fz.attrs.get('RIGHT_INSERTION_END')
-        lins = dgs[int(lis):int(lie)] if lis is not None else ''
-        rins = ags[int(ris):int(rie)] if ris is not None else ''
-        if lins or rins:
-            out['stats']['intronic_breakpoint'] = 1
-        abp = anno.coordinate_gene_to_transcript(fz.get_accepter_position(), am.transcript.gene_id, acc)
-        back = dd['seq'][:bp] + lins + rins + str(aseq.seq)[abp:]
-        shift = bp + len(lins) + len(rins) - abp
-        bvars = [v for v in dd['vars'] if v[1] < bp]
-        if acc in pool.data:
-            agsq = ags
-            for v in pool[acc].transcriptional:
-                av = as_var(v, aseq, agsq)
-                if av[0] > abp:
-                    bvars.append((av[0] + shift, av[1] + shift, av[2], av[3], av[4], av[5]))
-        if any(v[4] in ('Insertion', 'Deletion', 'Substitution') for v in bvars):
-            out['stats']['as_with_fusion'] = 1
-            return out
-        btx = {'seq': back, 'coding': dd['coding'], 'orf': dd['orf'], 'start_nf': dd['start_nf'],
-               'end_nf': am.is_mrna_end_nf(), 'sec': [s for s in dd['sec'] if s + 3 < bp],
-               'vars': bvars}
-        if not skip_fusion:
-            vf = var_field(bvars, idmap)
-            lim = str(bp + len(lins) + len(rins))
-            lines.append(('ref', ref_line(dd, kw, exc, kw['selenocysteine_termination'],
-                                          kw['w2f_reassignment'])))
-            out['cvb'] = ['S', 'cvb'] + tx_fields(btx) + [lim, '1', vf] + cleave_fields(kw, exc) + \
-                ['0', '1' if kw['w2f_reassignment'] else '0']
-            out['canon'] = ','.join(sorted(canon))
         out['lines'] = lines
         out['real'] = sorted(run.fasta.keys())
         out['headers'] = {s: h for s, h in run.fasta.items()}
@@ -179,6 +187,49 @@ def fusion_worker(job):
         return out
     finally:
         case.cleanup()
+
+
+def circ_backbone(out, desc, pool, tx_id, d, gs, kw, canon, idmap, exc):
+    """fills out['cvc'] / out['canon'] for the ONE circRNA of transcript `tx_id`; returns False
+    when the case cannot be evaluated"""
+    series = pool[tx_id]
+    if len(series.circ_rna) != 1:
+        out['stats']['circ_not_loaded'] = 1
+        return False
+    cm = series.circ_rna[0]
+    frags = sorted(cm.fragments, key=lambda f: int(f.location.start))
+    out['stats']['ci' if cm.id.startswith('CI-') else 'circ'] = 1
+    circ_seq = ''
+    cvars = []
+    usable_frags = [f for f in frags if len(f) > 3]
+    for f in frags:
+        fs, fe = int(f.location.start), int(f.location.end)
+        off = len(circ_seq)
+        circ_seq += gs[fs:fe]
+    if usable_frags:
+        # records of the transcript inside a fragment, in gene coordinates
+        gvars = pool.filter_variants(tx_ids=[tx_id], exclude_type=['Insertion', 'Deletion',
+                                                                    'Substitution'],
+                                     intron=False, segments=[_shift3(f) for f in usable_frags])
+        for v in sorted(gvars, key=lambda x: int(x.location.start)):
+            s, e = int(v.location.start), int(v.location.end)
+            off = 0
+            for f in frags:
+                fs, fe = int(f.location.start), int(f.location.end)
+                if fs <= s and e <= fe:
+                    cvars.append((off + s - fs, off + e - fs, str(v.ref), str(v.alt), v.type, v.id))
+                    break
+                off += fe - fs
+    vf = var_field(cvars, idmap)
+    if vf is None:
+        out['stats']['unsupported_type'] = 1
+        return False
+    desc.update(circ_len=len(circ_seq), n_circ_vars=len(cvars), coding=d['coding'])
+    out['stats']['with_vars_in_circ' if cvars else 'no_vars_in_circ'] = 1
+    out['cvc'] = ['S', 'cvc', circ_seq, vf] + cleave_fields(kw, exc) + \
+        ['1' if kw['w2f_reassignment'] else '0']
+    out['canon'] = ','.join(sorted(canon))
+    return True
 
 
 def circ_worker(job):
@@ -229,42 +280,8 @@ def circ_worker(job):
             lines.append(('main', main_line(d, kw, canon, idmap, exc)))
         lines.append(('ref', ref_line(d, kw, exc, kw['selenocysteine_termination'],
                                       kw['w2f_reassignment'])))
-        if len(series.circ_rna) != 1:
-            out['stats']['circ_not_loaded'] = 1
+        if not circ_backbone(out, desc, pool, tx_id, d, gs, kw, canon, idmap, exc):
             return out
-        cm = series.circ_rna[0]
-        frags = sorted(cm.fragments, key=lambda f: int(f.location.start))
-        out['stats']['ci' if cm.id.startswith('CI-') else 'circ'] = 1
-        circ_seq = ''
-        cvars = []
-        usable_frags = [f for f in frags if len(f) > 3]
-        for f in frags:
-            fs, fe = int(f.location.start), int(f.location.end)
-            off = len(circ_seq)
-            circ_seq += gs[fs:fe]
-        if usable_frags:
-            # records of the transcript inside a fragment, in gene coordinates
-            gvars = pool.filter_variants(tx_ids=[tx_id], exclude_type=['Insertion', 'Deletion',
-                                                                        'Substitution'],
-                                         intron=False, segments=[_shift3(f) for f in usable_frags])
-            for v in sorted(gvars, key=lambda x: int(x.location.start)):
-                s, e = int(v.location.start), int(v.location.end)
-                off = 0
-                for f in frags:
-                    fs, fe = int(f.location.start), int(f.location.end)
-                    if fs <= s and e <= fe:
-                        cvars.append((off + s - fs, off + e - fs, str(v.ref), str(v.alt), v.type, v.id))
-                        break
-                    off += fe - fs
-        vf = var_field(cvars, idmap)
-        if vf is None:
-            out['stats']['unsupported_type'] = 1
-            return out
-        desc.update(circ_len=len(circ_seq), n_circ_vars=len(cvars), coding=d['coding'])
-        out['stats']['with_vars_in_circ' if cvars else 'no_vars_in_circ'] = 1
-        out['cvc'] = ['S', 'cvc', circ_seq, vf] + cleave_fields(kw, exc) + \
-            ['1' if kw['w2f_reassignment'] else '0']
-        out['canon'] = ','.join(sorted(canon))
         out['lines'] = lines
         out['real'] = sorted(run.fasta.keys())
         out['headers'] = {s: h for s, h in run.fasta.items()}
@@ -283,3 +300,108 @@ def _shift3(frag):
     from moPepGen.SeqFeature import FeatureLocation, SeqFeature
     loc = FeatureLocation(start=int(frag.location.start) + 3, end=int(frag.location.end))
     return SeqFeature(chrom=frag.chrom, location=loc, attributes=frag.attributes)
+
+
+def combo_worker(job):
+    """two genes; small records on both; ONE fusion donor -> acceptor AND one circRNA of the
+    donor, each in a GVF file of its own.  The real FASTA of the full run must equal the union
+    of the per-transcript sets, the fusion backbone set and the circRNA set; the runs without
+    the fusion file / without the circRNA file are kept for the C05 'adding a GVF file' clause."""
+    seed, tier, opts = job
+    rng = random.Random(seed)
+    out = {'stats': {}, 'seed': seed}
+    case = gen_ref.Case(gen_ref.work_dir('combo'))
+    try:
+        with gen_ref.quiet():
+            gen_ref.make_reference(case, seed, 2)
+            genome, anno, _ = gen_ref.load_reference(case)
+            txs = list(anno.transcripts.keys())
+            donor, acc = (txs[0], txs[1]) if rng.random() < 0.5 else (txs[1], txs[0])
+            recs = []
+            for tx_id in txs:
+                recs += gen_ref.dense_variants(anno, genome, tx_id, rng,
+                                               rng.randint(1, 4) if tx_id == donor else rng.randint(0, 2),
+                                               max_size=4, window=200, edge_frac=0.0)
+            import random as _r
+            from moPepGen import fake
+            fus = circ = None
+            for _ in range(20):
+                _r.seed(rng.randrange(1 << 30))
+                try:
+                    f = fake.fake_fusion(anno, genome, donor)
+                except Exception:   # noqa
+                    continue
+                if f.attrs['ACCEPTER_TRANSCRIPT_ID'] == acc:
+                    fus = f
+                    break
+            for _ in range(10):
+                _r.seed(rng.randrange(1 << 30))
+                try:
+                    circ = fake.fake_circ_rna_model(anno, donor, 0.25)
+                    break
+                except Exception:   # noqa
+                    continue
+            if fus is None or circ is None:
+                out['stats']['no_fusion_or_circ'] = 1
+                return out
+            n_small = len(recs)
+            allrecs = recs + [fus, circ]
+            # write_gvfs puts circRNA records into a file of their own (the last one)
+            gen_ref.write_gvfs(case, allrecs, layout=[list(range(n_small)), [n_small]])
+            files = list(case.gvfs)
+        kw = cv_explore.default_kw(rng, True, opts.get('exception'))
+        kw['backsplicing_only'] = False
+        canon = pipe.canonical_pool(case, **{k: v for k, v in kw.items() if k != 'backsplicing_only'})
+        run = gen_ref.run_call_variant(case, tag='cv', **kw)
+        desc = {'seed': seed, 'kw': kw, 'donor': donor, 'acceptor': acc, 'fusion': fus.id,
+                'circ': circ.id, 'tx': donor}
+        out['desc'] = desc
+        if run.status != 'ok':
+            out['stats']['crash'] = 1
+            out['crash'] = (run.status, run.error)
+            return out
+        # runs without one of the two backbone files (the other records unchanged)
+        fus_file = files[-2]
+        circ_file = files[-1]
+        sub = {}
+        for name, drop in (('without_fusion_file', fus_file), ('without_circ_file', circ_file)):
+            r2 = gen_ref.run_call_variant(case, tag='sub', input_path=[f for f in files if f != drop], **kw)
+            sub[name] = {'status': r2.status, 'real': sorted(r2.fasta.keys())}
+        out['sub'] = sub
+        pool = load_pool(case, anno, genome)
+        exc = resolve_exc(kw)
+        idmap: Dict[str, int] = {}
+        lines = []
+        tdicts = {}
+        for tx_id in txs:
+            if tx_id not in pool.data:
+                continue
+            series = pool[tx_id]
+            d, tx_seq, gs = tx_dict(anno, genome, tx_id, series.transcriptional)
+            tdicts[tx_id] = (d, tx_seq, gs)
+            if series.transcriptional:
+                ln = main_line(d, kw, canon, idmap, exc)
+                if ln is None:
+                    out['stats']['unsupported_type'] = 1
+                    return out
+                lines.append(('main', ln))
+        if not fusion_backbone(out, desc, anno, genome, pool, donor, acc, tdicts, kw, canon, idmap, exc, lines):
+            return out
+        dd, _dseq, dgs = tdicts[donor] if donor in tdicts else tx_dict(anno, genome, donor, [])
+        if not any(k == 'ref' for k, _ in lines):
+            lines.append(('ref', ref_line(dd, kw, exc, kw['selenocysteine_termination'],
+                                          kw['w2f_reassignment'])))
+        if not circ_backbone(out, desc, pool, donor, dd, dgs, kw, canon, idmap, exc):
+            return out
+        out['lines'] = lines
+        out['real'] = sorted(run.fasta.keys())
+        out['headers'] = {s: h for s, h in run.fasta.items()}
+        out['stats']['runs'] = 1
+        out['stats']['real_peptides'] = len(run.fasta)
+        return out
+    except Exception:   # noqa
+        out['stats']['worker_error'] = 1
+        out['error'] = traceback.format_exc()[-1500:]
+        return out
+    finally:
+        case.cleanup()
